@@ -3,6 +3,7 @@
 from __future__ import annotations
 
 import ast
+import copy
 import struct
 from typing import Any, Dict, List, Optional, Tuple  # noqa: F401
 
@@ -793,7 +794,8 @@ def module_highbyte_fixup(repo: Repo, rep, P: str, rule: str, require_present: b
     inlined_names = set()
     for name, fn in sv.methods.items():
         il = inline.Inliner(repo, sv, sv.file)
-        flat_methods[name] = inline.expand_aliases(inline.unroll(il.flatten(fn), repo, sv))
+        il.flatten(fn)
+        flat_methods[name] = inline.nest_guard_clauses(inline.normalize(repo, sv, fn, aliases=True))
         inlined_names |= set(il.inlined)
     for name, fn in flat_methods.items():
         if name in inlined_names and name.startswith("_") and not name.startswith("__"):
@@ -806,9 +808,10 @@ def module_highbyte_fixup(repo: Repo, rep, P: str, rule: str, require_present: b
                         parents[c] = (n, fld)
         for n in ast.walk(fn):
             tgt = val = None
-            if isinstance(n, ast.AugAssign) and isinstance(n.op, ast.BitAnd):
+            # x.module &= 0xFF  /  x.module %= 0x100  /  x.module = x.module & 0xFF  /  … % 256
+            if isinstance(n, ast.AugAssign) and isinstance(n.op, (ast.BitAnd, ast.Mod)):
                 tgt, val = n.target, n.value
-            elif isinstance(n, ast.Assign) and len(n.targets) == 1 and isinstance(n.value, ast.BinOp) and isinstance(n.value.op, ast.BitAnd):
+            elif isinstance(n, ast.Assign) and len(n.targets) == 1 and isinstance(n.value, ast.BinOp) and isinstance(n.value.op, (ast.BitAnd, ast.Mod)):
                 tgt, val = n.targets[0], n.value.right
             if not (isinstance(tgt, ast.Attribute) and tgt.attr == "module"):
                 continue
@@ -818,6 +821,8 @@ def module_highbyte_fixup(repo: Repo, rep, P: str, rule: str, require_present: b
                 par, fld = parents[cur]
                 if isinstance(par, ast.If) and fld == "body":
                     guards.append(par.test)
+                elif isinstance(par, ast.If) and fld == "orelse":
+                    guards.append(inline._negate(copy.deepcopy(par.test)))        # the else branch runs when the test is false
                 cur = par
             masks.append((name, fn, n, guards))
     good = 0
@@ -825,6 +830,14 @@ def module_highbyte_fixup(repo: Repo, rep, P: str, rule: str, require_present: b
         ok = False
         for g in guards:
             g2 = subst_locals(fn, g)
+            while isinstance(g2, ast.UnaryOp) and isinstance(g2.op, ast.Not) and isinstance(g2.operand, ast.UnaryOp) and isinstance(g2.operand.op, ast.Not):
+                g2 = g2.operand.operand
+            if isinstance(g2, ast.UnaryOp) and isinstance(g2.op, ast.Not) and isinstance(g2.operand, ast.Compare) and len(g2.operand.ops) == 1 \
+                    and isinstance(g2.operand.ops[0], ast.GtE):
+                g2 = ast.Compare(left=g2.operand.left, ops=[ast.Lt()], comparators=g2.operand.comparators)      # not (v >= b)  is  v < b
+            if isinstance(g2, ast.Compare) and len(g2.ops) == 1 and isinstance(g2.ops[0], ast.Gt) \
+                    and norm(g2.comparators[0]) == "self.object.loaded_sunvox_version":
+                g2 = ast.Compare(left=g2.comparators[0], ops=[ast.Lt()], comparators=[g2.left])          # bound > version
             if isinstance(g2, ast.Compare) and len(g2.ops) == 1 and isinstance(g2.ops[0], ast.Lt) \
                     and norm(g2.left) == "self.object.loaded_sunvox_version":
                 try:
